@@ -603,3 +603,28 @@ func WriteObservation(prop, name string, v interface{}) {
 	}
 	ioutil.WriteFile(filepath.Join(dir, sanitize(name)+".json"), b, 0644)
 }
+
+// RemoveLater removes a per-case scratch directory, but not before 48 later calls: a stopped
+// go-autofile Group (the WAL) may still have one tick pending in its ticker channel, and its
+// goroutine panics ("open .../wal_0: no such file or directory") when the directory vanished
+// before it handled that tick — which happens when a case lasted longer than the 5 s tick period
+// (a loaded machine). Directories still queued when the process exits stay under the run's
+// scratch base, which the parent removes.
+func RemoveLater(dir string) {
+	laterMtx.Lock()
+	laterDirs = append(laterDirs, dir)
+	var victim string
+	if len(laterDirs) > 48 {
+		victim = laterDirs[0]
+		laterDirs = laterDirs[1:]
+	}
+	laterMtx.Unlock()
+	if victim != "" {
+		os.RemoveAll(victim)
+	}
+}
+
+var (
+	laterMtx  sync.Mutex
+	laterDirs []string
+)
